@@ -36,7 +36,7 @@ theorem C04_gen_tables :
     (∀ p ∈ Gen.C04.orderToType, orderToType p.1 = some p.2) ∧ Gen.C04.orderToType.length = 4 ∧
     (∀ p ∈ Gen.C04.compOrderToType, compOrderToType p.1.1 p.1.2 = some p.2 ∧ compTypeToOrder p.2 = some p.1) ∧
     Gen.C04.compOrderToType.length = 8 ∧
-    Gen.C04.canonicalResidues = canonicalResidues ∧
+    Gen.C04.canonicalAA = canonicalAA ∧ Gen.C04.canonicalNuc = canonicalNuc ∧
     Gen.C04.noAltloc = noAltloc ∧
     Gen.C04.bondTypes.lookup "ANY" = some btAny ∧ Gen.C04.bondTypes.lookup "SINGLE" = some btSingle ∧
     Gen.C04.bondTypes.lookup "COORDINATION" = some btCoordination ∧
@@ -44,12 +44,13 @@ theorem C04_gen_tables :
   decide
 
 /-- Shape of the repaired source: `_filter_canonical_links` returns a pure `&`-chain whose
-comparisons are parenthesised terms (the precedence defect would make the top node a comparison),
-with the atom-name tuples the model uses; the altloc filters no longer test `isalpha()`; the link
+comparisons are parenthesised terms (the precedence defect would make the top node a comparison);
+its first term is `is_peptide_link | is_nucleotide_link`, each an `&`-chain over one canonical list
+and one atom pair (C–N for amino acids, O3'–P for nucleotides — no mixed pairs); the altloc filters no longer test `isalpha()`; the link
 classes are the ones the fixture dictionary is classified by. -/
 theorem C04_gen_guards :
-    Gen.C04.canonShape = "and-chain" ∧ Gen.C04.canonTerms = 8 ∧ Gen.C04.canonCompareTerms = 4 ∧
-    Gen.C04.canonAtomNames = [["C", "O3'"], ["N", "P"]] ∧
+    Gen.C04.canonShape = "and-chain" ∧ Gen.C04.canonTerms = 5 ∧ Gen.C04.canonCompareTerms = 4 ∧
+    Gen.C04.canonKinds = [("canonical_aa_list", "C", "N"), ("canonical_nucleotide_list", "O3'", "P")] ∧
     Gen.C04.altlocUsesIsalpha = false ∧
     Gen.C04.peptideLinks = ["PEPTIDE LINKING", "L-PEPTIDE LINKING", "D-PEPTIDE LINKING"] ∧
     Gen.C04.nucleicLinks = ["RNA LINKING", "DNA LINKING"] := by
@@ -211,8 +212,9 @@ theorem C04_chem_comp_bond_roundtrip (atoms : List Atom) (bonds : List Bond)
 /-- **Writer ⇔ reader on backbone links** (`_filter_canonical_links` vs `_connect_inter_residue`,
 component dictionary as a parameter).
 (1) Every bond the reader creates from the dictionary is a SINGLE bond between two consecutive
-residues, and the writer omits exactly this bond from `struct_conn` iff both residue names are
-canonical.
+residues, and the writer omits exactly this bond from `struct_conn` iff its atoms are C–N of two
+canonical amino acids or O3'–P of two canonical nucleotides (`canonKind`; a C–P bond between an amino
+acid and a nucleotide is kept — repaired).
 (2) A bond the writer omits is re-created by the reader iff the dictionary links the two residues
 through exactly the two bonded atoms (C→N for two peptide-linking, O3'→P for two nucleotide-linking
 components); atom names unique per residue.
@@ -220,8 +222,7 @@ On the unrepaired code (1) is false (links across a chain border / numbering gap
 theorem C04_backbone_links_restored (ccd : Ccd) (atoms : List Atom) (b : Bond) :
     (b ∈ connectInter ccd (residues atoms) →
       b.i < atoms.length ∧ b.j < atoms.length ∧ b.t = btSingle ∧ inStructConn (resPos atoms) b = true ∧
-      isDroppedLink atoms b = (canonicalResidues.contains (atomAt atoms b.i).resName &&
-        canonicalResidues.contains (atomAt atoms b.j).resName)) ∧
+      isDroppedLink atoms b = canonKind (atomAt atoms b.i) (atomAt atoms b.j)) ∧
     (NamesUnique atoms → b.i < atoms.length → b.j < atoms.length → isDroppedLink atoms b = true →
       (b ∈ connectInter ccd (residues atoms) ↔
         linkNames ccd (atomAt atoms b.i).resName (atomAt atoms b.j).resName =
@@ -265,13 +266,34 @@ theorem C04_bonds_roundtrip_partial (ccd : Ccd) (s : Structure) (bs : List Bond)
   refine ⟨blk, bs', s.coords[0], by simp [List.head?_eq_getElem?, List.getElem?_eq_getElem hpos], hw, ?_, hmem⟩
   exact hk 0 hpos 1 (Or.inl (by simp))
 
-/-- **Unequal model lengths are rejected** by `get_structure(model=None)` whenever some model (group
-of `_filter_model`) has another length than the first — also when the total happens to fit
-(models of 2, 1 and 3 atoms; accepted as 3 × 2 by the unrepaired check `length × count ≠ total`). -/
+/-- **Unequal model lengths and interleaved models are rejected** by `get_structure(model=None)`:
+whenever some group has another length than the first model — also when the total happens to fit
+(2, 1 and 3 atoms; accepted as 3 × 2 by the unrepaired check) — or a group between two first
+occurrences contains rows of another model (1, 1, 2, 1; accepted as 2 × 2 before the repair). -/
 theorem C04_unequal_models_rejected (ccd : Ccd) (b : Block) (o : ReadOpts) (hom : o.model = none)
-    (h : ∃ g ∈ splitModels b.site, g.length ≠ ((splitModels b.site).headD []).length) :
+    (h : (∃ g ∈ splitModels b.site, g.length ≠ (selectModel b.site 0).length) ∨
+         (∃ g ∈ splitModels b.site, ∃ r ∈ g, some r.model ≠ g.head?.map (·.model))) :
     readStructure ccd b o = .error .invalidFile :=
   readStructure_unequal ccd b o hom h
+
+/-- **A model is the set of rows with its number** (repaired `_filter_model`): on a table made of
+blocks the k-th model is the k-th block, and on *any* table — also with interleaved models — the
+selected rows are exactly the rows that carry the k-th model number (in order of first appearance). -/
+theorem C04_select_model_exact (site : List SiteRow) (k : Nat) :
+    (∀ r, r ∈ selectModel site k ↔ r ∈ site ∧ (modelNumbers site)[k]? = some r.model) ∧
+    (∀ (bs : List (List SiteRow)), BlocksOk [] bs → ∀ g, bs[k]? = some g → selectModel bs.flatten k = g) := by
+  constructor
+  · intro r
+    unfold selectModel
+    cases h : (modelNumbers site)[k]? with
+    | none => simp
+    | some v =>
+      simp only [List.mem_filter, beq_iff_eq, Option.some.injEq]
+      constructor
+      · rintro ⟨h1, h2⟩; exact ⟨h1, h2.symm⟩
+      · rintro ⟨h1, h2⟩; exact ⟨h1, h2.symm⟩
+  · intro bs hok g hg
+    exact select_blocks bs hok k g hg
 
 /-- `model_count` (`len(np.unique(models))`) is the number of groups `_filter_model` cuts, for every table. -/
 theorem C04_model_count_eq_groups (site : List SiteRow) :
@@ -354,6 +376,100 @@ theorem C04_reused_block (old : Block) (s : Structure) (incl : Bool) :
   · intro e hw
     unfold writeInto
     rw [hw]; rfl
+
+def exCcd : Ccd := ⟨fun n => if n == "ALA" || n == "GLY" then .peptide else .other, fun _ => []⟩
+
+/-! ## Refusals (the regions the round-trip theorems exclude, where the code refuses) -/
+
+/-- **An empty structure is refused**: no atoms or no models → `BadStructureError`, nothing is written. -/
+theorem C04_empty_rejects (s : Structure) (incl : Bool) (h : s.atoms = [] ∨ s.coords = []) :
+    writeBlock s incl = .error .badStructure := by
+  unfold writeBlock
+  have : (s.atoms.isEmpty || s.coords.isEmpty) = true := by
+    rcases h with h | h <;> simp [h]
+  simp [this, bind, Except.bind, throw, throwThe, MonadExceptOf.throw]
+
+/-- **Empty residue or atom names are refused when bonds are written** (`chem_comp_bond` is keyed by
+names): `BadStructureError`. -/
+theorem C04_empty_name_rejects (atoms : List Atom) (bonds : List Bond)
+    (h : ∃ a ∈ atoms, a.resName = "" ∨ a.atomName = "") :
+    setIntra atoms bonds = .error .badStructure := by
+  obtain ⟨a, ha, hn⟩ := h
+  have : (atoms.any (fun a => a.resName == "") || atoms.any (fun a => a.atomName == "")) = true := by
+    rw [Bool.or_eq_true, List.any_eq_true, List.any_eq_true]
+    rcases hn with hn | hn
+    · left; exact ⟨a, ha, by simp [hn]⟩
+    · right; exact ⟨a, ha, by simp [hn]⟩
+  simp [setIntra, this]
+
+/-- **A `struct_conn` partner that matches several atoms is refused**: if the key of a partner of some
+covalent row occurs at two or more rows of `atom_site` (an atom that is not uniquely identifiable),
+`_parse_inter_residue_bonds` raises `InvalidFileError` — it never picks one of them. -/
+theorem C04_ambiguous_partner_rejects (site : List SiteRow) (conn : List ConnRow)
+    (h : ∃ r ∈ conn, (typeIdToType r.typeId).isSome = true ∧
+      (2 ≤ (idxsFrom (normKey r.p1) 0 (site.map siteKey)).length ∨
+       2 ≤ (idxsFrom (normKey r.p2) 0 (site.map siteKey)).length)) :
+    parseInter site conn = .error .invalidFile := by
+  obtain ⟨r, hr, hcov, hamb⟩ := h
+  have hrc : r ∈ conn.filter (fun r => (typeIdToType r.typeId).isSome) := List.mem_filter.mpr ⟨hr, hcov⟩
+  have herr : ∀ qs, findDense qs (site.map siteKey) = .error .invalidFile ∨ ∃ xs, findDense qs (site.map siteKey) = .ok xs := by
+    intro qs; unfold findDense; split
+    · left; rfl
+    · right; exact ⟨_, rfl⟩
+  have hbad : ∀ (f : ConnRow → Key), 2 ≤ (idxsFrom (f r) 0 (site.map siteKey)).length →
+      findDense ((conn.filter (fun r => (typeIdToType r.typeId).isSome)).map f) (site.map siteKey) = .error .invalidFile := by
+    intro f h2
+    unfold findDense
+    have : ((conn.filter (fun r => (typeIdToType r.typeId).isSome)).map f).any
+        (fun q => decide ((idxsFrom q 0 (site.map siteKey)).length > 1)) = true := by
+      rw [List.any_eq_true]
+      exact ⟨f r, List.mem_map.mpr ⟨r, hrc, rfl⟩, by simp; omega⟩
+    simp [this]
+  unfold parseInter
+  simp only [bind, Except.bind]
+  rcases hamb with h1 | h2
+  · rw [hbad (fun r => normKey r.p1) h1]
+  · rcases herr ((conn.filter (fun r => (typeIdToType r.typeId).isSome)).map fun r => normKey r.p1) with e | ⟨xs, e⟩
+    · rw [e]
+    · rw [e]; simp only []; rw [hbad (fun r => normKey r.p2) h2]
+
+/-- **A model index outside 1…M / −M…−1 is refused** (`ValueError`) for every table (repaired for
+negative indices). -/
+theorem C04_model_out_of_range_rejects (ccd : Ccd) (b : Block) (o : ReadOpts) (m : Int) (hom : o.model = some m)
+    (h : m = 0 ∨ normModel (distinctCount (b.site.map (·.model))) m > (distinctCount (b.site.map (·.model)) : Int) ∨
+      normModel (distinctCount (b.site.map (·.model))) m < 1) :
+    readStructure ccd b o = .error .valueError :=
+  readStructure_model_rejected ccd b o m hom h
+
+/-! ## Defects outside the hypotheses of `C04_stack_roundtrip` (known findings, format limits) -/
+
+def ligAtom (rid : Int) (name : String) : Atom := ⟨"A", rid, "", "LG1", true, name, "C", 0, 0, []⟩
+def writeRead (ccd : Ccd) (s : Structure) : Except Err (Option (List Bond)) :=
+  (writeBlock s true).bind fun blk => (readStructure ccd blk ⟨some 1, .first, true, false, false⟩).map (·.bonds)
+
+/-- **Inconsistent components (negation of the bond round-trip without `WFS.consistent`).**  Two
+residues of one component, the bond X1=X2 present only in the first: `chem_comp_bond` describes the
+*component*, so the second residue comes back with the bond too. -/
+theorem C04_inconsistent_components_defect :
+    writeRead exCcd ⟨[ligAtom 1 "X1", ligAtom 1 "X2", ligAtom 2 "X1", ligAtom 2 "X2"], false, false,
+      [["a", "b", "c", "d"]], none, some [⟨0, 1, 2⟩]⟩ = .ok (some [⟨0, 1, 2⟩, ⟨2, 3, 2⟩]) := by
+  decide +kernel
+
+/-- **No bond for `chem_comp_bond` → dictionary fallback (negation without `WFS.noFallback`).**  A structure
+with a `BondList` that has no intra-residue bond is written without `chem_comp_bond`; the reader then
+takes the bonds of the component dictionary: an ALA written with an empty bond list comes back bonded. -/
+theorem C04_dictionary_fallback_defect :
+    writeRead ⟨fun _ => .other, fun n => if n == "ALA" then [(("N", "CA"), 1)] else []⟩
+      ⟨[⟨"A", 1, "", "ALA", false, "N", "N", 0, 0, []⟩, ⟨"A", 1, "", "ALA", false, "CA", "C", 0, 0, []⟩], false, false,
+       [["a", "b"]], none, some []⟩ = .ok (some [⟨0, 1, 1⟩]) := by
+  decide +kernel
+
+/-- **An implied backbone link is always created (negation without `WFS.linksPaired`).**  Two consecutive
+peptide-linking residues without a C–N bond in the structure come back with one. -/
+theorem C04_implied_link_invented_defect :
+    writeRead exCcd ⟨[⟨"A", 1, "", "ALA", false, "C", "C", 0, 0, []⟩, ⟨"A", 2, "", "GLY", false, "N", "N", 0, 0, []⟩], false, false,
+      [["a", "b"]], none, some []⟩ = .ok (some [⟨0, 1, 1⟩]) := by
+  decide +kernel
 
 /-! ## Altloc -/
 
@@ -494,7 +610,6 @@ example : isDroppedLink [exAtom 1 "" "C" 0, ⟨"A", 2, "", "GLY", false, "N", "N
 
 /-! ### non-vacuity of the bond theorems: a concrete well-formed structure -/
 
-def exCcd : Ccd := ⟨fun n => if n == "ALA" || n == "GLY" then .peptide else .other, fun _ => []⟩
 def exAtoms : List Atom :=
   [⟨"A", 1, "", "ALA", false, "N", "N", 0, 0, []⟩, ⟨"A", 1, "", "ALA", false, "CA", "C", 0, 0, []⟩,
    ⟨"A", 1, "", "ALA", false, "C", "C", 0, 0, []⟩, ⟨"A", 2, "", "GLY", false, "N", "N", 0, 0, []⟩,
